@@ -20,6 +20,7 @@ func c09Drivers() []concParams {
 		{Name: "compact-vs-close", Cfg: "flushy/bytewise", Pre: []string{"put:a", "put:b"}, Clients: [][]string{{"put:a"}, {"cr"}, {"close"}}, QB: 1, TB: 2},
 		{Name: "readers-vs-close", Cfg: "tinycache/bytewise", Pre: []string{"put:a", "put:b", "q"}, Clients: [][]string{{"get:a", "iterscan"}, {"snapget:a,b"}, {"close"}}, QB: 1, TB: 2},
 		{Name: "writer-vs-readonly", Cfg: "default/bytewise", Clients: [][]string{{"put:a", "put:b"}, {"ro"}, {"get:a"}}},
+		{Name: "two-tables-one-slot-vs-close", Cfg: "tinycache/bytewise", Pre: []string{"put:a", "put:b", "put:c", "cr", "q"}, Clients: [][]string{{"get:a", "get:c", "get:b"}, {"close"}}, QB: 2, TB: 3},
 		{Name: "close-vs-close", Cfg: "default/bytewise", Clients: [][]string{{"put:a"}, {"close"}, {"close"}}},
 	}
 }
